@@ -47,6 +47,9 @@ type session struct {
 	script  []pmsg
 	faultN  int    // -1: no fault; otherwise the (faultN+1)-th emission of the peer is replaced by the sticky fault
 	faultK  string // eof | readerr | garbage | partial
+	// nodata: the malformed work-done messages of the script (kind baddone) are runtime messages WITHOUT a data field
+	// ({id, run_id}) instead of one with data of the wrong shape; the model reads both as BadPayload (it ignores the flag)
+	nodata bool
 }
 
 func parseSession(n *sx.Node) (*session, error) {
@@ -67,6 +70,8 @@ func parseSession(n *sx.Node) (*session, error) {
 				s.calls = append(s.calls, call{run: c.List[1].Str, lane: int(c.List[2].Int()), sigTo: int(c.List[3].Int()),
 					closeCh: c.List[4].Int() == 1, sigFrom: c.List[5].Int() == 1})
 			}
+		case "nodata":
+			s.nodata = f.List[1].Int() == 1
 		case "fault":
 			s.faultN = int(f.List[1].Int())
 			s.faultK = f.List[2].Atom
@@ -93,6 +98,9 @@ func (s *session) sx() *sx.Node {
 		sx.L(sx.A("close"), sx.B(s.close)), calls, peer)
 	if s.faultN >= 0 {
 		n.Append(sx.L(sx.A("fault"), sx.I(int64(s.faultN)), sx.A(s.faultK)))
+	}
+	if s.nodata {
+		n.Append(sx.L(sx.A("nodata"), sx.B(true)))
 	}
 	return n
 }
@@ -211,20 +219,27 @@ type running struct {
 	offered  []int // signals offered per call
 	chClosed []bool
 	accepted map[string]bool
-	peerDone bool
-	sent     []bool // script message already sent
-	dead     bool   // a fault item was sent: the peer sends nothing more
-	nEmitted int
-	lanes    int
-	wire     []string
-	lanesWG  sync.WaitGroup
+	// sessions that RE-USE a run id (reuse): the peer answers every accepted work start once - the k-th segment of
+	// the run's script (events up to and including a terminal message) may be sent once k work starts were accepted
+	reuse     bool
+	acceptedN map[string]int
+	termSent  map[string]int
+	quit      chan struct{} // closed at teardown: releases the consumers of emitted signals
+	peerDone  bool
+	sent      []bool // script message already sent
+	dead      bool   // a fault item was sent: the peer sends nothing more
+	nEmitted  int
+	lanes     int
+	wire      []string
+	lanesWG   sync.WaitGroup
 }
 
 // startSession creates the client, performs the handshake free-running, then activates the gates and
 // starts the harness goroutines (lanes, closer), which park at their first gate.
 func startSession(s *session) (*running, error) {
 	sch.reset()
-	r := &running{s: s, tr: newTransport(s.frag, false, -1), accepted: map[string]bool{}}
+	r := &running{s: s, tr: newTransport(s.frag, false, -1), accepted: map[string]bool{}, acceptedN: map[string]int{},
+		termSent: map[string]int{}, quit: make(chan struct{}), reuse: s.reusesRunIDs()}
 	r.results = make([]result, len(s.calls))
 	r.emitted = make([]int, len(s.calls))
 	r.sigCh = make([]chan schema.Input, len(s.calls))
@@ -288,10 +303,18 @@ func (r *running) lane(l int) {
 		if c.sigFrom {
 			sigFrom = make(chan schema.Input)
 			go func(i int) { // consumer_reads: the caller consumes every emitted signal
-				for range sigFrom {
-					r.mu.Lock()
-					r.emitted[i]++
-					r.mu.Unlock()
+				for {
+					select {
+					case _, ok := <-sigFrom:
+						if !ok {
+							return
+						}
+						r.mu.Lock()
+						r.emitted[i]++
+						r.mu.Unlock()
+					case <-r.quit: // the channel of a refused Execute is never closed by the client
+						return
+					}
 				}
 			}(i)
 		}
@@ -341,6 +364,7 @@ func (r *running) peerAccept() (string, bool) {
 	switch kind {
 	case "workstart":
 		r.accepted[run] = true
+		r.acceptedN[run]++
 	case "clientdone":
 		r.peerDone = true
 	}
@@ -370,7 +394,74 @@ func (r *running) nextOf(run string) int {
 // sendable: the peer may emit the next event of this run's plan (the run was accepted, the plan is not
 // exhausted, no fault has been emitted yet).
 func (r *running) sendable(run string) bool {
+	if r.reuse && r.termSent[run] >= r.acceptedN[run] {
+		return false // every accepted work start of this run id has its terminal message already
+	}
 	return !r.dead && r.accepted[run] && r.nextOf(run) >= 0
+}
+
+func isTerminalKind(k string) bool {
+	switch k {
+	case "done", "stepfatal", "stepfatal_norun", "svfatal", "baddone":
+		return true
+	}
+	return false
+}
+
+// reusesRunIDs: two calls of the session carry the same run id.
+func (s *session) reusesRunIDs() bool {
+	seen := map[string]bool{}
+	for _, c := range s.calls {
+		if seen[c.run] {
+			return true
+		}
+		seen[c.run] = true
+	}
+	return false
+}
+
+// expectedClass: the class (ok | err) of the result of call i when the session determines it: a healthy script (work
+// done / step-fatal error for the run, signals, notices), no fault, and every call with this run id issued by the same
+// harness goroutine, one after the other - then the k-th of them is an ordinary call answered by the k-th terminal
+// message of that run id.  "" when the property does not fix the class (error fan-outs, faults, a run id in use on
+// two goroutines: the later call may be refused).
+func (s *session) expectedClass(i int) string {
+	if s.faultN >= 0 || s.wfail >= 0 {
+		return ""
+	}
+	for _, m := range s.script {
+		switch m.kind {
+		case "done", "stepfatal", "signal", "notice", "unknown":
+		default:
+			return ""
+		}
+	}
+	c := s.calls[i]
+	k := 0
+	for j, d := range s.calls {
+		if d.run != c.run {
+			continue
+		}
+		if d.lane != c.lane {
+			return ""
+		}
+		if j < i {
+			k++
+		}
+	}
+	n := 0
+	for _, m := range s.script {
+		if m.run == c.run && (m.kind == "done" || m.kind == "stepfatal") {
+			if n == k {
+				if m.kind == "done" {
+					return "ok"
+				}
+				return "err"
+			}
+			n++
+		}
+	}
+	return ""
 }
 
 // peerSend emits the next event of the run's plan - or, when this is the emission the session's fault
@@ -385,8 +476,15 @@ func (r *running) peerSend(run string) string {
 	i := r.nextOf(run)
 	m := r.s.script[i]
 	b, fault := encodePeer(m)
+	if m.kind == "baddone" && r.s.nodata {
+		// a work-done message from which the data field is missing: nothing to decode a result from
+		b = mustMarshal(map[string]any{"id": atp.MessageTypeWorkDone, "run_id": m.run})
+	}
 	r.sent[i] = true
 	r.nEmitted++
+	if isTerminalKind(m.kind) {
+		r.termSent[m.run]++
+	}
 	if fault != nil {
 		r.dead = true
 	}
@@ -411,6 +509,7 @@ func (r *running) runs() []string {
 func (r *running) finish() {
 	sch.deactivate()
 	r.tr.shutdown()
+	close(r.quit)
 	r.mu.Lock()
 	for i, ch := range r.sigCh {
 		if ch != nil && !r.chClosed[i] {
